@@ -61,11 +61,17 @@ InvRefuse == k = 2 => \A q \in Params(c) : ~SSRBRefuses(c, q)
 O == SSRBGeom(c, p)
 MapOf(b) == IF Covered(c, b) THEN mapT[b] ELSE NoBin
 InvCommute == k = 3 =>
-  \A x \in AllPairsT(c) :
-     (p.tofComb % 2 = 1 \/ TieFree(c, O, binI[x])) =>
-        (Covered(c, binI[x]) => MapOf(binI[x]) = (IF Covered(O, binO[x]) THEN binO[x] ELSE NoBin))
-InvSubset == k = 3 => (p.tofComb % 2 = 1 => \A x \in AllPairsT(c) : SubsetAt(c, O, p, binI[x], binO[x]))
-InvConserve == k = 3 => (p.tofComb % 2 = 1 => \A x \in AllPairsT(c) : ConserveAt(c, O, p, binI[x], binO[x]))
+  (TofNests(c, O) =>
+     \A x \in AllPairsT(c) :
+        Covered(c, binI[x]) => MapOf(binI[x]) = (IF Covered(O, binO[x]) THEN binO[x] ELSE NoBin))
+InvSubset == k = 3 => (TofNests(c, O) => \A x \in AllPairsT(c) : SubsetAt(c, O, p, binI[x], binO[x]))
+InvConserve == k = 3 => (TofNests(c, O) => \A x \in AllPairsT(c) : ConserveAt(c, O, p, binI[x], binO[x]))
+\* coarse TOF bins are unions of fine ones for odd tofComb and for unmashed input
+InvNest == k = 3 => ((p.tofComb % 2 = 1 \/ c.tofMash = 1) => TofNests(c, O))
+\* the k-interval rule of the implementation is the rebinning wherever it is unambiguous, and it is
+\* unambiguous for odd tofComb
+InvTofK == k = 3 => /\ TofKAgrees(c, O)
+                    /\ (p.tofComb % 2 = 1 => \A kk \in TofBins(c) : TofCertain(c, O, kk) \/ TofCands(c, O, kk) = {})
 \* the rebinning is a function of the input BIN (it cannot separate pairs that the input merged), and the
 \* memo table agrees with the definition
 InvMapDef == k = 3 => \A b \in DOMAIN mapT : mapT[b] = NoBin \/ (mapT[b] \in AllBinsWide(O))
